@@ -1,6 +1,90 @@
-(* C23 — placeholder while the proofs are being written (replaced below). *)
-From Coq Require Import List NArith ZArith Bool.
-From HV Require Import Model.Mempool.
-Theorem C23_placeholder_partial : forall m : mp, m = m.
-Proof. reflexivity. Qed.
-Print Assumptions C23_placeholder_partial.
+(* C23 — The mempool keeps its bounds and ordering under any operation sequence.  Property theorems only.
+   Model: Model/Mempool.v (+ EHeap.v, Heap.v).  [run (mp_new max maxsp) ops] executes an arbitrary list of
+   Add / Remove / PopNext / SetMinTimestamp / Top / StartStreaming / PrepareStream / Stream / FinishStreaming
+   steps (every public method holds m.mu, so a concurrent history is such a list).
+   Hypothesis [wf_op spf szf]: an item's sponsor and size are functions of its id (ids are hashes of the
+   item; Remove adjusts the counters with the argument item). *)
+From Coq Require Import List NArith ZArith Bool Permutation.
+Import ListNotations.
+From HV Require Import Model.Heap Model.EHeap Model.Mempool Proofs.Mempool_proofs.
+
+(* After ANY operation sequence: no two held items share an id, the item limit and every sponsor's limit
+   hold, Size() is the sum of the held sizes, Len() is the number of held items and Has answers membership. *)
+Theorem C23_invariant : forall spf szf maxsz maxsp ops,
+  Forall (wf_op spf szf) ops ->
+  let m := fst (run (mp_new maxsz maxsp) ops) in
+  NoDup (qids (mp_queue m)) /\
+  length (mp_queue m) <= maxsz /\
+  (forall s, count_sp (mp_queue m) s <= maxsp) /\
+  mp_pending m = sum_size (mp_queue m) /\
+  eh_len (mp_eh m) = length (mp_queue m) /\
+  (forall id, eh_has (mp_eh m) id = true <-> In id (qids (mp_queue m))).
+Proof. exact c23_invariant. Qed.
+Print Assumptions C23_invariant.
+
+(* In any reachable state SetMinTimestamp t keeps exactly the items with expiry >= t (in order) and returns
+   exactly the items with expiry < t. *)
+Theorem C23_expiry_exact : forall spf szf maxsz maxsp m t,
+  reachable spf szf maxsz maxsp m ->
+  mp_queue (fst (set_min_ts m t)) = filter (fun y => (t <=? it_exp y)%Z) (mp_queue m) /\
+  Permutation (snd (set_min_ts m t)) (filter (fun y => (it_exp y <? t)%Z) (mp_queue m)).
+Proof. exact c23_set_min. Qed.
+Print Assumptions C23_expiry_exact.
+
+(* Hand-out order = arrival order, restored items first: PopNext/PeekNext/Stream/PrepareStream/Top take a
+   prefix of the queue; Add appends the accepted items in argument order; a restore (FinishStreaming, Top)
+   puts the accepted items in front of everything else. *)
+Theorem C23_order : forall spf szf maxsz maxsp m,
+  reachable spf szf maxsz maxsp m ->
+  (snd (pop_next m) = hd_error (mp_queue m) /\ mp_queue (fst (pop_next m)) = tl (mp_queue m) /\
+   peek_next m = hd_error (mp_queue m)) /\
+  (forall xs, exists acc, sub acc xs /\ mp_queue (add false m xs) = mp_queue m ++ acc) /\
+  (forall xs, exists acc, sub acc xs /\ mp_queue (add true m xs) = rev acc ++ mp_queue m) /\
+  (forall c, mp_queue m = snd (stream_items c m) ++ mp_queue (fst (stream_items c m)) /\
+             length (snd (stream_items c m)) <= c /\
+             (length (snd (stream_items c m)) = c \/ mp_queue (fst (stream_items c m)) = [])) /\
+  (forall script, exists k acc, snd (top m script) = firstn k (mp_queue m) /\ sub acc (snd (top m script)) /\
+             mp_queue (fst (top m script)) = rev acc ++ skipn k (mp_queue m)).
+Proof. exact c23_order. Qed.
+Print Assumptions C23_order.
+
+(* Remove(items) deletes exactly the held items whose id occurs in the argument, keeping the order. *)
+Theorem C23_remove : forall spf szf maxsz maxsp m xs,
+  reachable spf szf maxsz maxsp m -> Forall (wf_item spf szf) xs ->
+  mp_queue (remove m xs) = filter (fun y => negb (mem_id (it_id y) (qids xs))) (mp_queue m).
+Proof. exact c23_remove. Qed.
+Print Assumptions C23_remove.
+
+(* Streaming.  [ghost_run] collects the ids taken out of the pool by Stream/PrepareStream since the last
+   StartStreaming/FinishStreaming.  After ANY operation sequence: no id occurs twice in it (nothing is handed
+   out twice within one stream), none of these ids is held, and Add (back or front) refuses every one of them
+   — until FinishStreaming empties the collection. *)
+Theorem C23_stream : forall spf szf maxsz maxsp ops,
+  Forall (wf_op spf szf) ops ->
+  let m := fst (run (mp_new maxsz maxsp) ops) in
+  let g := ghost_run [] (mp_new maxsz maxsp) ops in
+  NoDup g /\
+  (forall id, In id g -> ~ In id (qids (mp_queue m))) /\
+  (forall front x, In (it_id x) g -> add1 front m x = m).
+Proof. exact c23_stream. Qed.
+Print Assumptions C23_stream.
+
+(* ---------- non-vacuity ---------- *)
+Local Open Scope N_scope.
+Definition ex_sp (id : N) : N := id mod 2.
+Definition ex_sz (id : N) : Z := 1%Z.
+Definition ex_it (id : N) (e : Z) : item := mkI id (ex_sp id) 1%Z e.
+Definition ex_ops : list op :=
+  [OAdd [ex_it 1 30; ex_it 2 10; ex_it 3 20; ex_it 1 40]; OStart; OStream 1%nat; OAdd [ex_it 1 30; ex_it 4 10];
+   OSetMin 15%Z; OPrepare 1%nat].
+Example C23_hypothesis_satisfiable : Forall (wf_op ex_sp ex_sz) ex_ops.
+Proof. repeat constructor. Qed.
+(* item 1 streamed (and refused afterwards), items 2 and 4 expired, item 3 prefetched: ghost = [1; 3] *)
+Example C23_example_run :
+  let m := fst (run (mp_new 3 2) ex_ops) in
+  qids (mp_queue m) = [] /\ ghost_run [] (mp_new 3 2) ex_ops = [1; 3] /\ mp_streamed m = Some [3; 1].
+Proof. vm_compute. auto. Qed.
+Example C23_reachable_example : reachable ex_sp ex_sz 3 2 (fst (run (mp_new 3 2) ex_ops)).
+Proof. exists ex_ops. split; [exact C23_hypothesis_satisfiable|reflexivity]. Qed.
+Example C23_limit_refuses : qids (mp_queue (fst (run (mp_new 2 1) [OAdd [ex_it 1 30; ex_it 3 10; ex_it 2 20; ex_it 4 5]]))) = [1; 2].
+Proof. vm_compute. reflexivity. Qed.
